@@ -55,6 +55,13 @@ def judge(op, impl, model):
             return "reject unexplained-difference " + " ".join(w[2:])[:1500].replace(" ", "_")
         m = re.search(r" explained=(\S+)", v)
         names = m.group(1).split(",")[0].split("+") if m else ["?"]
+        if names[0] == "multiplicity-only":
+            # same set of rows, different multiplicities, and no deviation switch explains it: keyed by the enabling shape of the query
+            import cyshape
+            mq = re.match(r'q ("(?:[^"\\]|\\.)*")', op)
+            feats = cyshape.features(json.loads(mq.group(1))) if mq else set()
+            shape = ("chain-through-node-carried-by-with" if {"with", "pattern-uses-earlier-binding", "rel-pattern"} <= feats else "unrecognised-query-shape")
+            return "reject multiplicity-only-difference:%s %s" % (shape, " ".join(w[2:])[:1500].replace(" ", "_"))
         return "reject deviation:%s %s" % (names[0], " ".join(w[2:])[:1500].replace(" ", "_"))
     if w[0] == "sql-runtime-error":
         m = re.search(r"usql=\d+ (\S+) graph=", v)
@@ -179,7 +186,9 @@ SPEC = {
     "panic_is_violation": False,
     "rule": "tie 1 (suite c01tie): structured random queries of the PROVED fragment S1 (kinds x predicates x items x order/skip/limit; splitmix64(VERIF_SEED)) are translated by the REAL "
             "translator; the reflection S-expression of Result.Statement must be EQUAL to the model translator's `tr q` (and carry no parameters), and on every generated graph satisfying "
-            "the theorems' hypothesis the two evaluators must agree. tie 2 (suite c01, SEARCH not proof): every Cypher text of the repository corpora the translator accepts + structured "
+            "the theorems' hypothesis the two evaluators must agree. tie 2 (suite c01, SEARCH not proof): FOCUSED FAMILIES (harness/focused.go: variable-length step + >= 2 fixed hops with every subset of the suffix nodes already bound, "
+            "aggregate-only RETURN incl. collect / size(collect()) with LIMIT and no ORDER BY — one output row, so the LIMIT is deterministic —, aggregate traversal counts, collect membership) "
+            "+ every Cypher text of the repository corpora the translator accepts + structured "
             "random queries (levels 1-5) are translated by the REAL translator; the emitted statement is evaluated by Sql.eval on encode(g) and the source query by Cy.eval on g, for the "
             "fixed graph family, seeded random graphs and (sampled cases) all graphs up to N nodes / E edges with self loops, parallel edges, multi-kind nodes, missing properties; "
             "results are compared as ordered lists under ORDER BY (tie-aware) and as bags otherwise; a difference is explained by searching the deviation switches of Cy.eval (single, "
